@@ -93,7 +93,7 @@ def run(ctx):
     # 1b. unbounded work under a deadline: the predicate turns true 200 ms after the start (a Ctrl-C, the CLI's hint budget, the web
     # timeout); a loop that polls stops within milliseconds of the deadline, a loop that lost its poll does not come back
     unbounded = [("days+", "@2000-01-01 + 10^12 days"), ("days-", "@2000-01-01 - 10^12 days"), ("weeks", "@2000-01-01 - 10^11 weeks"), ("months", "@2000-01-01 - 10^12 months"), ("years", "@2000-01-01 - 10^9 years"),
-                 ("dice", "100000d100000"), ("dice-product", "1000d1000 * 1000d1000"), ("dice-mean", "mean(500d500)"), ("fibonacci", "fibonacci 10^9"), ("shift-right", "(1 << 10^7) >> 9999999"), ("shift-left", "1 << 10^9"),
+                 ("dice", "100000d100000"), ("dice-product", "1000d1000 * 1000d1000"), ("dice-mean", "mean(500d500)"), ("fibonacci", "fibonacci 10^9"), ("shift-right", "(1 << 10^7) >> 9999999"), ("shift-left", "1 << (2 * 10^8)"),
                  ("power", "3^(10^9)"), ("recurring", "1/(10^9+7) to float"), ("root", "2^0.12345"), ("exp", "exp 0.12345"), ("nCr", "10^6 nCr 500000"), ("nPr", "10^6 nPr 500000"), ("implicit-sum", " ".join(["2 m"] * 30000)),
                  ("decimal-places", "1/7 to 100000000 dp"), ("sig-figs", "pi to 1000000 sf"), ("hex", "3^(10^7) to hex"), ("base3", "(10^(10^6)) to base 3"), ("gcd", "(3^(10^6)+1)/(7^(10^6)+1) + 1"), ("mod", "3^(10^7) mod (2^521-1)"),
                  ("compare", "3^(10^6) == 3^(10^6) + 1"), ("sqrt", "sqrt(10^(10^6))"), ("lambda", "(x: x^(10^8)) 3"), ("unit-power", "(3 kg)^(10^8)"), ("to-string", '"a" + (3^(10^7) to string)'), ("factorial", "(10^6)!"),
